@@ -291,7 +291,7 @@ Qed.
 
 (* ---------------------------------------------------------------- envelopes *)
 Lemma filter_call_app : forall ms0 tail cs,
-  (forall k, In k (keys ms0) -> is_flag k = false /\ needs_escape k = false) ->
+  (forall k, In k (keys ms0) -> is_flag k = false) ->
   filter_call (ms0 ++ tail) cs =
   match filter_call tail cs with
   | Some (ys, cs') => Some (ms0 ++ ys, cs')
@@ -300,7 +300,7 @@ Lemma filter_call_app : forall ms0 tail cs,
 Proof.
   induction ms0 as [| [k v] ms0 IH]; intros tail cs H.
   - cbn [app]. destruct (filter_call tail cs) as [[ys cs'] |]; reflexivity.
-  - cbn [app filter_call]. destruct (H k (or_introl eq_refl)) as [Hf He]. rewrite He.
+  - cbn [app filter_call]. pose proof (H k (or_introl eq_refl)) as Hf.
     unfold is_flag in Hf. apply orb_false_iff in Hf as [Hf H3]. apply orb_false_iff in Hf as [H1 H2].
     rewrite H1, H2, H3. rewrite IH.
     + destruct (filter_call tail cs) as [[ys cs'] |]; reflexivity.
@@ -333,11 +333,10 @@ Qed.
 Theorem call_roundtrip : forall tag content (vs : variants) meth ow mo up,
   Fits (SAdj tag content vs) meth ->
   is_flag tag = false -> is_flag content = false ->
-  needs_escape tag = false -> needs_escape content = false ->
   exists v, enc_call (SAdj tag content vs) (mk_call meth ow mo up) = Some v /\
             dec_call (SAdj tag content vs) v = Some (mk_call meth ow mo up).
 Proof.
-  intros tag content vs meth ow mo up HF Hft Hfc Het Hec.
+  intros tag content vs meth ow mo up HF Hft Hfc.
   destruct (roundtrip _ meth HF) as (v0 & Henc & Hdec).
   destruct (enc_adj_object _ _ _ _ _ Henc) as (ms0 & -> & Hkeys).
   exists (JObj (ms0 ++ flag_members ow mo up)). split.
@@ -346,7 +345,7 @@ Proof.
     rewrite filter_call_app, filter_call_flags.
     + rewrite app_nil_r, (Hdec Direct). cbn [c_oneway c_more c_upgrade].
       destruct ow, mo, up; reflexivity.
-    + intros k Hk. destruct (Hkeys k Hk) as [-> | ->]; now split.
+    + intros k Hk. destruct (Hkeys k Hk) as [-> | ->]; assumption.
 Qed.
 
 (* flags are written only when set, after the method type's own members *)
@@ -477,14 +476,14 @@ Qed.
 (* the standard method org.varlink.service.GetInfo, in a call envelope with any flags, any member
    order and any other members *)
 Theorem getinfo_spellings : forall ms ow mo up,
-  NoDup (keys ms) -> existsb (fun m => needs_escape (fst m)) ms = false ->
+  NoDup (keys ms) ->
   lookup "method" ms = Some (JStr "org.varlink.service.GetInfo") ->
   no_params (lookup "parameters" ms) ->
   spec_flag "oneway" ms = Some ow -> spec_flag "more" ms = Some mo -> spec_flag "upgrade" ms = Some up ->
   dec_call vs_method_shape (JObj ms) = Some (mk_call (RVar 0 []) ow mo up).
 Proof.
-  intros ms ow mo up Hnd Hesc Hm Hc H1 H2 H3.
-  rewrite dec_call_spec by exact Hnd. unfold spec_call. rewrite Hesc, H1, H2, H3.
+  intros ms ow mo up Hnd Hm Hc H1 H2 H3.
+  rewrite dec_call_spec by exact Hnd. unfold spec_call. rewrite H1, H2, H3.
   cbn [map_capable vs_method_shape]. unfold vs_method_shape.
   rewrite (no_parameters_spellings Direct "method" "parameters" _ _
              "org.varlink.service.GetInfo" 0 []); try reflexivity.
